@@ -102,22 +102,7 @@ func (c *Ctx) assumeRanges(v Val, t types.Type, cond string, alloc string) {
 		}
 		c.assumeLeafRange(v[i], &sh[i], cond, alloc)
 	}
-	switch t.Underlying().(type) {
-	case *types.Slice:
-		c.assume(cond, and(le("0", v[1]), le("0", v[2]), le(v[2], v[3]), implies(eq(v[0], "0"), eq(v[3], "0")), le(v[3], "4611686018427387904")))
-	case *types.Interface:
-		c.assume(cond, and(le("0", v[0]), implies(eq(v[0], "0"), eq(v[1], "0"))))
-	}
-	if st, ok := t.Underlying().(*types.Struct); ok {
-		for i := 0; i < st.NumFields(); i++ {
-			ft := st.Field(i).Type()
-			switch ft.Underlying().(type) {
-			case *types.Slice, *types.Interface, *types.Struct:
-				a, b := fieldRange(st, i)
-				c.assumeStructural(v[a:b], ft, cond)
-			}
-		}
-	}
+	c.assumeStructural(v, t, cond)
 }
 
 func (c *Ctx) assumeStructural(v Val, t types.Type, cond string) {
@@ -126,10 +111,23 @@ func (c *Ctx) assumeStructural(v Val, t types.Type, cond string) {
 		c.assume(cond, and(le("0", v[1]), le("0", v[2]), le(v[2], v[3]), implies(eq(v[0], "0"), eq(v[3], "0")), le(v[3], "4611686018427387904")))
 	case *types.Interface:
 		c.assume(cond, and(le("0", v[0]), implies(eq(v[0], "0"), eq(v[1], "0"))))
+		c.assumeSealed(v, t, cond)
 	case *types.Struct:
+		if _, special := specialNamed(t); special {
+			return
+		}
 		for i := 0; i < u.NumFields(); i++ {
 			a, b := fieldRange(u, i)
-			c.assumeStructural(v[a:b], u.Field(i).Type(), cond)
+			if b <= len(v) {
+				c.assumeStructural(v[a:b], u.Field(i).Type(), cond)
+			}
+		}
+	case *types.Tuple:
+		for i := 0; i < u.Len(); i++ {
+			a, b := tupleRange(u, i)
+			if b <= len(v) {
+				c.assumeStructural(v[a:b], u.At(i).Type(), cond)
+			}
 		}
 	}
 }
@@ -914,4 +912,22 @@ type matRec struct {
 	v    ssa.Value
 	from *Loc
 	to   *Loc
+}
+
+// assumeSealed: an interface with an unexported method can only be implemented by
+// types of its own package (Go type system). When that package is loaded, the
+// dynamic type tag of any value of the interface is nil or one of those types.
+func (c *Ctx) assumeSealed(v Val, t types.Type, cond string) {
+	if isLiteral(v[0]) {
+		return
+	}
+	ids, ok := c.eng.sealedImpls(t)
+	if !ok {
+		return
+	}
+	alts := []string{eq(v[0], "0")}
+	for _, id := range ids {
+		alts = append(alts, eq(v[0], num(int64(id))))
+	}
+	c.assume(cond, or(alts...))
 }
